@@ -49,6 +49,15 @@ CHECKS["C08"] = dict(level="exploration", ref="6/C08",
         "configuration, the last accepted grammar, the CMN text and the audio (batch class: no CMN reset).",
    note=DEC_NOTE, technique=TECH + "; differential against a pristine forked sibling after seeded histories on several live decoders")
 
+CHECKS["C17"] = dict(level="fault_enumeration", ref="6/C17",
+   text="Storage faults injected into every acoustic-model file of both bundled models through the simulated file store (exact-size heap images under ASan): missing file, "
+        "truncation at byte k, each located int32 header field := corruption value, bit flips, zeroed/duplicated/deleted blocks, swapped byte-order marker; init via decoder_init, "
+        "decoder_create+reinit or the in-memory *_s3file sequence; whatever is returned is used and freed; then faults are cleared, the intact model is initialised and must decode a "
+        "canary utterance exactly as an undisturbed decoder. Thorough tier enumerates the field x value and truncation lists completely (about 12k cases), then samples; quick samples.",
+   note="Allocation failure is not injected; absurd allocation sizes are capped by the sanitizer allocator so that they surface as the library's own exit. Leaks on failed loads "
+        "are not asserted. Real mmap is replaced by the file store.",
+   technique=TECH + "; fault enumeration over stored artefacts behind link-time file seams")
+
 NA = {
  "C02": "pure function of grammar, dictionary, model and frame scores: no schedule, fault, history or crash point; needs an independent max-plus reference (differential testing), another technique family",
  "C05": "pure function of one JSGF text (a compiler-correctness property): nothing to schedule or fault; language enumeration against a JSGF interpreter is the right tool",
